@@ -21,6 +21,7 @@ pub struct Recorder {
     pub insts: Vec<dr::Instruction>,
     pub trace: Vec<String>,
     pub stop_at: Option<(usize, bool)>, // (callback index, is_error)
+    pub payload: char,                  // E: ScriptErr; P/Q: the error value is itself a ParseState
     pub calls: usize,
 }
 
@@ -31,9 +32,11 @@ impl Recorder {
         } else {
             let mut it = script.split(':');
             let k: usize = it.next().unwrap().parse().unwrap();
-            Some((k, it.next().unwrap() == "E"))
+            let kind = it.next().unwrap();
+            return Recorder { header: None, insts: vec![], trace: vec![], stop_at: Some((k, kind != "S")), calls: 0,
+                              payload: kind.chars().next().unwrap_or('E') };
         };
-        Recorder { header: None, insts: vec![], trace: vec![], stop_at, calls: 0 }
+        Recorder { header: None, insts: vec![], trace: vec![], stop_at, calls: 0, payload: 'E' }
     }
     fn answer(&mut self) -> ParseAction {
         let k = self.calls;
@@ -41,7 +44,11 @@ impl Recorder {
         match self.stop_at {
             Some((at, is_err)) if at == k => {
                 if is_err {
-                    ParseAction::Error(Box::new(ScriptErr(k as u32)))
+                    match self.payload {
+                        'P' => ParseAction::Error(Box::new(rspirv::binary::ParseState::ConsumerStopRequested)),
+                        'Q' => ParseAction::Error(Box::new(rspirv::binary::ParseState::Complete)),
+                        _ => ParseAction::Error(Box::new(ScriptErr(k as u32))),
+                    }
                 } else {
                     ParseAction::Stop
                 }
@@ -94,6 +101,12 @@ pub fn do_parse_with(script: &str, bytes: &[u8], as_words: bool) -> String {
         };
         let st = match res {
             Ok(()) => "OK".to_string(),
+            Err(rspirv::binary::ParseState::ConsumerError(ref inner))
+                if (rec.payload == 'P' && matches!(inner.downcast_ref::<rspirv::binary::ParseState>(), Some(rspirv::binary::ParseState::ConsumerStopRequested)))
+                    || (rec.payload == 'Q' && matches!(inner.downcast_ref::<rspirv::binary::ParseState>(), Some(rspirv::binary::ParseState::Complete))) =>
+            {
+                format!("CERR:script{}", rec.stop_at.map(|x| x.0).unwrap_or(0))
+            }
             Err(e) => state_text(&e),
         };
         format!(
